@@ -6,6 +6,7 @@ the harness computes for them); every read-out is then compared with slices of t
 """
 import warnings
 from collections import Counter
+from fractions import Fraction
 
 import numpy as np
 from hypothesis import strategies as st
@@ -18,7 +19,7 @@ RULE = ("histories of take_step / advance on every sampler class followed by rea
         "parameter index, interval fractions in (0,1) and requested counts None | 1..2*len; non-trivial = burn > 0, thin > 1 and >= 2 "
         "rows retained, or one of the edge classes (0 or 1 rows retained)")
 ASSUMPTIONS = ["get_interval's documented override: thin = max(n // samples, 1) when a count is requested",
-               "cut-off index int(n * (1 - interval)) of the lowest log-probabilities, as documented by 'top fraction'"]
+               "the top fraction f of m rows leaves floor(m*(1 - f)) rows out; where m*(1 - f) is within 1e-9*m of a whole number either neighbouring count is accepted"]
 
 
 @st.composite
@@ -227,8 +228,14 @@ def read_outs(cfg, ch, model_s, model_p, reads, ctx):
             eff_thin = thin if samples is None else max(n_burned // samples, 1)
             base_s, base_p = model_s[burn::eff_thin], model_p[burn::eff_thin]
             m = base_p.shape[0]
-            cut = int(m * (1 - rd["interval"]))
+            # rows outside the top fraction f of m rows: m*(1 - f), rounded down. When that product is within rounding of a whole number
+            # the count is ambiguous by one row (the implementation's float product, exact arithmetic on the float f, or ceil(f*m) are
+            # all legitimate readings): the more inclusive reading is used for "lies in the top fraction", either for the exact set
+            exact = m * (1 - Fraction(rd["interval"]))
+            cut = int(exact - Fraction(1, 10**9) * m) if exact > 0 else 0
+            cut_alt = int(exact + Fraction(1, 10**9) * m)
             top_p = np.sort(base_p)[cut:]
+            top_alt = np.sort(base_p)[cut_alt:]
             with warnings.catch_warnings():
                 warnings.simplefilter("ignore")
                 with np.errstate(all="ignore"):
@@ -245,12 +252,12 @@ def read_outs(cfg, ch, model_s, model_p, reads, ctx):
             if iv_p.size and top_p.size and iv_p.min() < top_p.min():
                 raise Violation(f"get_interval-fraction:{itag}", f"interval={rd['interval']}: returned log-probability {iv_p.min()!r} lies below the top fraction (cut at {top_p.min()!r}, {cut} of {m} trimmed)")
             if samples is None:
-                if not np.array_equal(np.sort(iv_p), top_p):
+                if not (np.array_equal(np.sort(iv_p), top_p) or np.array_equal(np.sort(iv_p), top_alt)):
                     raise Violation(f"get_interval-all:{itag}", f"interval={rd['interval']}, burn={burn}, thin={thin}: {iv_p.size} rows returned, the top fraction has {top_p.size}")
             else:
                 if iv_p.size > samples:
                     raise Violation(f"get_interval-count:{itag}", f"samples={samples}: {iv_p.size} rows returned")
-                if iv_p.size < min(samples, top_p.size):
+                if iv_p.size < min(samples, top_alt.size):
                     raise Violation(f"get_interval-count:{itag}", f"samples={samples}: only {iv_p.size} rows returned although the top fraction has {top_p.size}")
             ctx.event("interval:" + ("count" if samples is not None else "all"))
         ctx.nontrivial((burn > 0 and thin > 1 and k >= 2) or k <= 1)
